@@ -505,6 +505,13 @@ func runC02(c *Ctx) {
 	checkDeliveredReplyWins(c)
 	checkReaderDoneWakesWaiters(c)
 	checkWaitingDeadlineUnconditional(c)
+	checkErrorExitWaitsForReader(c)
+	if ex := c.fn(relTransport, "TraditionalDnsConn", "exchange"); ex != nil {
+		// D38: a flag set for a query that was answered during its send closes the connection under the next query's reply
+		lfA := p.newLockFacts()
+		lfA.analyseScope(p.funcsIn(relTransport))
+		checkWaitingDeadlineArmed(c, lfA, ex)
+	}
 
 	// ---------------------------------------------------------------- R13
 	c.rule("R13", "the datagram reader offers the whole receive buffer to every read (a buffer cut to an earlier, short datagram makes the reader drop every later reply)", 1)
